@@ -406,6 +406,79 @@ func c02GetPath(doc []byte, out *[]string) {
 	}
 }
 
+// ---- typed destinations: the compiled (JIT) decoders do their own blank skipping and separator handling
+// (inlined lspace, _OP_* instructions), none of which the interface{} / RawMessage / Valid paths touch.
+//
+//	valid typed <doc hex>      every destination below, default and std config:  t_<name>=<0|1|m|P>,
+//	                           rt_<name>=<0|1|m> (encoding/json into the same type)
+type c02TInner struct {
+	E bool    `json:"e"`
+	X []int   `json:"x"`
+	S *string `json:"s"`
+}
+
+type c02TStruct struct {
+	A int            `json:"a"`
+	B string         `json:"b"`
+	C []int          `json:"c"`
+	D c02TInner      `json:"d"`
+	F *int           `json:"f"`
+	G float64        `json:"g"`
+	H map[string]int `json:"h"`
+	I [2]int         `json:"i"`
+	J *c02TInner     `json:"j"`
+	K []c02TInner    `json:"k"`
+	L bool           `json:"l"`
+	U uint8          `json:"u"`
+}
+
+type c02TDest struct {
+	name string
+	mk   func() interface{}
+}
+
+var c02TDests = []c02TDest{
+	{"struct", func() interface{} { return new(c02TStruct) }},
+	{"pstruct", func() interface{} { return new(*c02TStruct) }},
+	{"slice", func() interface{} { return new([]int) }},
+	{"array", func() interface{} { return new([2]int) }},
+	{"map", func() interface{} { return new(map[string]int) }},
+	{"mapstruct", func() interface{} { return new(map[string]c02TInner) }},
+	{"slice2", func() interface{} { return new([][]int) }},
+	{"slicestruct", func() interface{} { return new([]c02TInner) }},
+	{"sliceany", func() interface{} { return new([]interface{}) }},
+	{"mapany", func() interface{} { return new(map[string]interface{}) }},
+	{"int", func() interface{} { return new(int) }},
+	{"string", func() interface{} { return new(string) }},
+	{"bool", func() interface{} { return new(bool) }},
+	{"float", func() interface{} { return new(float64) }},
+}
+
+func c02Typed(doc []byte) string {
+	// compact answer (this stream is large): sonic=<flag per destination: default then std config, in the order
+	// of c02TDests>, rt=<encoding/json's flag per destination>; vlib/props/C02.py knows the order
+	var bits, rbits []byte
+	var extra []string
+	for _, d := range c02TDests {
+		for ci, cfg := range []sonic.API{sonic.ConfigDefault, sonic.ConfigStd} {
+			name := "t_" + d.name
+			if ci == 1 {
+				name += "_std"
+			}
+			buf := append(make([]byte, 0, len(doc)), doc...)
+			api := c02API{name: name, run: func(b []byte, st *c02State) c02Res {
+				return c02Unm(cfg.UnmarshalFromString(c02Str(b), d.mk()))
+			}}
+			r := c02Guard(api, buf, nil)
+			bits = append(bits, r.flag()[0])
+			extra = append(extra, r.extra...)
+		}
+		rbits = append(rbits, c02RefFlag(json.Unmarshal(doc, d.mk()))[0])
+	}
+	out := []string{"sonic=" + string(bits), "ref=" + b01(json.Valid(doc)), "rt=" + string(rbits)}
+	return strings.Join(append(out, extra...), "\t")
+}
+
 // a panic inside one API is that API's answer ("P"); the others still get asked
 func c02Guard(api c02API, d []byte, st *c02State) (r c02Res) {
 	defer func() {
@@ -432,6 +505,9 @@ func init() {
 			return "sonic=badcase"
 		}
 		doc := unhexArg(a[1])
+		if a[0] == "typed" {
+			return c02Typed(doc)
+		}
 		// tail=<hex>: the document is the front part of a longer buffer that continues with these bytes
 		// (what a caller gets by slicing); no API may look at them
 		var tail []byte
